@@ -54,17 +54,20 @@ Cases == {[kind |-> k, field |-> c[1], op |-> c[2]] : k \in Kinds, c \in Common}
 ScanConsumerCases == { "more-partial-flags-than-results/last-real-partial", "more-partial-flags-than-results/last-real-complete",
                        "fewer-partial-flags-than-results", "result-with-zero-cells-flagged-partial", "only-zero-cell-results",
                        "no-scanner-id-but-more-in-region", "no-flags-at-all", "results-in-protobuf-AND-cellblock-counts",
-                       "cells-of-two-rows-in-one-result" }
+                       "cells-of-two-rows-in-one-result",
+                       (* optional fields nobody asked for: well-formed, and a server is free to send them *)
+                       "unsolicited-scan-metrics", "scan-metrics-entry-without-name-and-value", "heartbeat-flag-with-results" }
 MetaRowCases == { "row-key-without-any-comma", "row-key-with-one-comma", "row-key-empty", "row-key-of-another-table",
                   "no-server-column", "server-without-port", "server-empty", "only-the-server-column", "regioninfo-twice",
-                  "zero-cell-row", "more-partial-flags-than-results" }
+                  "zero-cell-row", "more-partial-flags-than-results", "unsolicited-scan-metrics" }
 ClientCases ==
        {[api |-> a, target |-> "scan", case |-> c] : a \in {"scan", "scan-partial"}, c \in ScanConsumerCases}
   \cup {[api |-> a, target |-> "meta", case |-> c] : a \in {"get", "scan", "batch"}, c \in MetaRowCases}
   \cup {[api |-> "increment", target |-> "increment", case |-> c] : c \in {"value-shorter-than-8-bytes", "no-cells", "no-result", "empty-value"}}
   \cup {[api |-> "checkandput", target |-> "checkandput", case |-> "no-processed-flag"],
         [api |-> "get", target |-> "get", case |-> "no-result"], [api |-> "get", target |-> "get", case |-> "no-message"],
-        [api |-> "get", target |-> "get", case |-> "wrong-message-type"], [api |-> "put", target |-> "put", case |-> "wrong-message-type"]}
+        [api |-> "get", target |-> "get", case |-> "wrong-message-type"], [api |-> "put", target |-> "put", case |-> "wrong-message-type"],
+        [api |-> "put", target |-> "put", case |-> "result-with-cells-unsolicited"], [api |-> "get", target |-> "get", case |-> "exists-flag-without-cells"]}
 (* what the driver observes of the API call and of the client afterwards *)
 ClientOrderly(o) == ~o.panicked /\ o.returned /\ o.usableAfterwards
 
